@@ -71,9 +71,9 @@ SplitAct(f, k, parts) ==
                /\ UNCHANGED gen
 Split(f) == LET parts == SplitOf(A, f) IN \E k \in DOMAIN parts : SplitAct(f, k, parts)
 
-Intersect == LET P == IntersectOf(A, B) IN
-             /\ Keep(P)
-             /\ Step([name |-> "intersect"], P, B) /\ UNCHANGED gen
+Intersect(f) == LET P == IntersectOfBy(A, B, f) IN
+                /\ Keep(P)
+                /\ Step([name |-> "intersect", f |-> f], P, B) /\ UNCHANGED gen
 
 DropDup(dupf, asc) == LET P == DropDupOf(A, dupf, asc) IN
                       /\ Keep(P)
@@ -139,7 +139,7 @@ Ops ==  /\ d < MaxDepth
         /\ \/ Turn("subset") /\ \E f \in KeyFields : \E vals \in Offered(f) : Subset(f, vals)
            \/ Turn("remove") /\ \E f \in KeyFields : \E vals \in Offered(f) : RemoveRows(f, vals)
            \/ Turn("split") /\ \E f \in SplitFields : Split(f)
-           \/ Turn("intersect") /\ Intersect
+           \/ Turn("intersect") /\ \E f \in KeyFields : Intersect(f)
            \/ Turn("dropdup") /\ \E dupf \in {"sid", "obj"} : \E asc \in BOOLEAN : DropDup(dupf, asc)
            \/ Turn("merge_renumber") /\ \E order \in Orders : MergeRenumber(order)
            \/ Turn("merge_dropdup") /\ \E order \in Orders : MergeDropDup(order)
@@ -183,7 +183,7 @@ C08_RemoveComplementsSubset ==
                          \* complementarity with the selection of the same values, as multisets of rows
                          /\ \A r \in Range(A) : Count(A', r) + Count(SubsetOf(A, op'.f, op'.vals), r) = Count(A, r)]_vars
 
-C08_IntersectionExact == [][OpIs("intersect") => IntersectionExact(A, B, A')]_vars
+C08_IntersectionExact == [][OpIs("intersect") => IntersectionExactBy(A, B, op'.f, A')]_vars
 
 C08_DropDupOneBest == [][OpIs("dropdup") => DropDupOneBest(A, op'.f, op'.asc, A')]_vars
 
